@@ -371,6 +371,30 @@ func genC09(g *Gen, tier string, emit func(op string, args ...string)) {
 		}
 	}
 	rec(nil, maxLen)
+	// … and exhaustively up to length FIVE over a smaller alphabet (types 1, 2 and the invalid 256; the empty and a
+	// one-octet value): 21 operations, 21^5 programs from the empty list and from a list with a run of duplicates
+	if tier == "thorough" {
+		var small []string
+		for _, t := range []string{"1", "2", "256"} {
+			for _, v := range []string{"-", "61"} {
+				small = append(small, "add:"+t+":"+v, "set:"+t+":"+v)
+			}
+			small = append(small, "del:"+t, "get:"+t, "lookup:"+t)
+		}
+		var rec5 func(prefix []string, depth int)
+		rec5 = func(prefix []string, depth int) {
+			if depth == 0 {
+				p := strings.Join(prefix, ",")
+				emit("ops", "-", p)
+				emit("ops", "1:61,1:-,2:61,1:61", p)
+				return
+			}
+			for _, a := range small {
+				rec5(append(append([]string{}, prefix...), a), depth-1)
+			}
+		}
+		rec5(nil, 5)
+	}
 	// random long sequences with runs of duplicates and large values
 	n := 3000
 	if tier == "thorough" {
